@@ -37,12 +37,12 @@ pub fn table() -> Table {
     let t = fn_table();
     unsafe {
         Table {
-            error_description: std::mem::transmute(t.error_description as usize),
-            flags: std::mem::transmute(t.flags as usize),
-            add_to_question: std::mem::transmute(t.add_to_question as usize),
-            add_to_answer: std::mem::transmute(t.add_to_answer as usize),
-            raw_name_from_str: std::mem::transmute(t.raw_name_from_str as usize),
-            rename: std::mem::transmute(t.rename_with_raw_names as usize),
+            error_description: crate::capi::cast_fn(t.error_description),
+            flags: crate::capi::cast_fn(t.flags),
+            add_to_question: crate::capi::cast_fn(t.add_to_question),
+            add_to_answer: crate::capi::cast_fn(t.add_to_answer),
+            raw_name_from_str: crate::capi::cast_fn(t.raw_name_from_str),
+            rename: crate::capi::cast_fn(t.rename_with_raw_names),
         }
     }
 }
